@@ -298,6 +298,13 @@ class Seq:
         ok_expected = not codes and not conflict
         real = bridge.rtx_to_real(t)
         self.ops.append(["submit", via, name, t.enc().hex()])
+        # in a quarter of the submissions the debugging copy the node writes of every refused transaction cannot be written
+        # (disk full): whatever that does to the submitter, a refused transaction stays out of the pool
+        disk = getattr(self.sn, "disk", None)
+        if disk is not None:
+            disk.fail_debug_copy = rng.random() < 0.25
+            if disk.fail_debug_copy:
+                self.ops[-1].append("debug-copy-fails")
         if via == "api":
             c["submissions_api"] += 1
             try:
@@ -313,6 +320,9 @@ class Seq:
             res = "wire"
             while len(self.sn.active()) < 2:
                 self.sn.add_peer()
+        if disk is not None:
+            disk.fail_debug_copy = False
+            c["debug_copies_that_could_not_be_written"] = disk.debug_copy_failures
         head2, pool2 = self.check_invariant("submission of a %s transaction via %s" % (name, via))
         ids_before = [x.id() for x in pool]
         ids_after = [x.id() for x in pool2]
@@ -741,6 +751,7 @@ def replay(mon, w):
         if o[0] == "submit":
             t = ref.dec_tx(bytes.fromhex(o[3]), strict=False)[0]
             real = bridge.rtx_to_real(t)
+            seq.sn.disk.fail_debug_copy = "debug-copy-fails" in o
             if o[1] == "api":
                 try:
                     seq.sn.cm.add_transaction_to_pool(real)
@@ -750,6 +761,7 @@ def replay(mon, w):
                 raw = (seq.sn.active() or [seq.sn.add_peer()])[0]
                 raw.push(seq.sn.wire.transaction(real))
                 seq.sn.settle()
+            seq.sn.disk.fail_debug_copy = False
         elif o[0] == "deliver-block":
             rb = ref.dec_block(bytes.fromhex(o[1]), strict=False)[0]
             real = bridge.rblock_to_real(rb)
